@@ -14,12 +14,14 @@ PHASE = dict(idle=0, creating=1, holding=2, running=3, ended=4, done=5)
 
 # --------------------------------------------------------------------------- generator
 def gen_fs(rng, tier_thorough=False):
-    total = rng.choice([1, 1, 2, 2, 3, 4])
+    total = rng.choice([1, 2, 2, 3, 3, 4])
     nprocs = rng.choice([1, 2, 2, 2, 3, 3])
     nj = rng.randint(1, 6)
     jobs = []
     for _ in range(nj):
-        c = rng.choice([1, 1, 1, 2, 2, 3, total, max(1, total - 1), total + 1])
+        c = rng.choice([1, 1, 1, 1, 2, 2, 3, total, max(1, total - 1), total + 1])
+        if total >= 3 and rng.random() < 0.4:
+            c = 1
         jobs.append(dict(p=rng.randrange(nprocs), c=min(c, 5)))
     prof = rng.choice(["mixed", "mixed", "slowevents", "fastevents", "window", "crash"])
     w = {}
@@ -292,15 +294,25 @@ W3 = dict(kind="fs", total=2, nprocs=2, jobs=[dict(p=0, c=1)],
 
 
 def detect_variant(driver, scratch):
+    """(parse_fix, count_fix, notify_fix) of the tree under test; a probe that cannot be run as scripted
+    (the tree behaves differently for another reason) is inconclusive and counts as repaired: the
+    correspondence and the oracle then decide."""
     import copy
     scs = [copy.deepcopy(W1), copy.deepcopy(W2), copy.deepcopy(W3)]
+    scs[0]["steps"] = scs[0]["steps"][:4]
+    scs[1]["steps"] = scs[1]["steps"][:11]
+    scs[2]["steps"] = scs[2]["steps"][:5]
     r1, r2, r3 = run_batches(driver, scs, scratch, per=1, timeout=40)
-    for r in (r1, r2, r3):
-        if r.get("error"):
-            raise InternalError("variant probe failed: %s" % r["error"])
-    v_parse = not r1["steps"][3]["res"].startswith("raised")
-    v_notify = r2["steps"][10]["obs"]["jobs"][1][1] == "OK"
-    v_count = r3["steps"][4]["obs"]["procs"][1]["avail"] == 1
+    v_parse = v_count = v_notify = True
+    try:
+        if len(r1["steps"]) == 4:
+            v_parse = not r1["steps"][3]["res"].startswith("raised")
+        if len(r2["steps"]) == 11:
+            v_notify = r2["steps"][10]["obs"]["jobs"][1][1] != "WAIT"
+        if len(r3["steps"]) == 5:
+            v_count = r3["steps"][4]["obs"]["procs"][1]["avail"] != 2
+    except Exception:  # noqa
+        pass
     return (v_parse, v_count, v_notify)
 
 
@@ -381,7 +393,7 @@ def run_check(c, which):
         if gold.exists():
             for g in json.load(open(gold)):
                 (fs_cases if g.get("kind", "fs") == "fs" else in_cases).append(g)
-        nfs = 300 if quick else 3000
+        nfs = 300 if quick else 2000
         nin = 60 if quick else 400
     for _ in range(nfs):
         fs_cases.append(gen_fs(c.rng, not quick))
@@ -392,6 +404,12 @@ def run_check(c, which):
     res_in = run_batches(driver, in_cases, scratch, per=12 if quick else 40, timeout=40) if in_cases else []
     for sc, r in list(zip(fs_cases, res_fs)) + list(zip(in_cases, res_in)):
         if r.get("error"):
+            if sc.get("steps") is not None and "not enabled in the harness" in r["error"] and not r.get("timeout"):
+                # a scripted (golden / replayed) schedule that the tree no longer follows: the executed
+                # prefix is still checked by the oracle and the correspondence
+                c.count("scripted-schedule-diverged")
+                r["error"] = None
+                continue
             raise InternalError("scenario failed in the harness: %s\n%s" % (r["error"], json.dumps(sc)[:600]))
 
     # ---- oracle on the implementation's observables
@@ -444,7 +462,7 @@ def run_check(c, which):
     # ---- correspondence inside Coq
     cases = list(zip(fs_cases, res_fs))
     if cases:
-        shard = max(5, (len(cases) + 15) // 16) if quick else 60
+        shard = max(5, (len(cases) + 15) // 16) if quick else 40
         bad = c.corr_shards("fs", HEADER, cases, g_case, checker_name(variant), shard=shard, timeout=1500)
         c.extra["disagreeing_traces"] = [explicit(*cases[i]) for i in bad[:3]]
     pcases = [(sc, r) for sc, r in zip(in_cases, res_in) if r["pops"]]
